@@ -59,7 +59,6 @@ func (r *runner) entryPoints(keys []*key) {
 	a, b := keys[0], keys[1]
 	cidStr := chainAt(hHi)
 	cid := bigStr(cidStr)
-	uniq := uint64(900000)
 	gate := uint64(100)
 
 	deliver := func(tx *types.Transaction, sig []byte, userId string, requestId uint64) string {
@@ -77,95 +76,8 @@ func (r *runner) entryPoints(keys []*key) {
 		return ""
 	}
 
-	// honest base of a kind with fresh content
-	mkBase := func(kind string) (types.Transaction, []byte, *ethSpec, []byte) {
-		uniq++
-		switch kind {
-		case "native-event", "native-contract", "native-type0":
-			tx := types.Transaction{Source: a.addrHex, Target: b.addrHex, Time: "2026-09-25 10:00:00", Nonce: uniq, ChainId: cidStr}
-			switch kind {
-			case "native-event":
-				tx.Type = types.TransactionTypeOperatorEvent
-				tx.ExtraData = `{"` + b.addrHex + `":{"balance":"1"}}`
-			case "native-contract":
-				tx.Type = types.TransactionTypeContract
-				tx.Data = `{"gasPrice":"1000000000","gasLimit":"100000","transferValue":"0","abiData":"0xa9059cbb"}`
-			}
-			sig := signNative(&tx, a)
-			return tx, sig, nil, nil
-		}
-		sp := &ethSpec{Nonce: uniq, Price: big.NewInt(1000000000), Gas: 100000, To: &b.addr, Value: big.NewInt(5), Data: []byte{0xa9, 0x05, 0x9c, 0xbb}}
-		p, _ := buildEth(sp, cid, a)
-		return wrapEth(sp, a.addrHex, cidStr, p), nil, sp, p
-	}
-	nativeForgeries := []string{"data-changed-hash-kept", "data-changed-rehashed-old-signature", "signature-bit-flipped", "foreign-chainid-resigned", "signed-by-other-key", "source-other-key", "mirrored-signature", "nonce-changed", "hash-bit-flipped", "no-signature"}
-	ethForgeries := []string{"wrapper-nonce-changed", "wrapper-target-changed", "wrapper-hash-bit-flipped", "payload-s-bit-flipped-rehashed", "payload-v-parity-rehashed", "signed-by-other-key-declares-A", "foreign-chainid-consistent", "wrapper-source-other-key"}
-	forge := func(kind, name string) forged {
-		tx, sig, sp, p := mkBase(kind)
-		switch name {
-		case "data-changed-hash-kept":
-			tx.ExtraData += " "
-		case "data-changed-rehashed-old-signature":
-			tx.ExtraData += " "
-			tx.Hash = refNativeHash(&tx)
-		case "signature-bit-flipped":
-			sig = append([]byte(nil), sig...)
-			sig[40] ^= 1
-		case "foreign-chainid-resigned":
-			tx.ChainId = "1"
-			sig = signNative(&tx, a)
-		case "signed-by-other-key":
-			sig = signNative(&tx, b)
-		case "source-other-key":
-			tx.Source = b.addrHex
-			sig = signNative(&tx, a)
-		case "mirrored-signature":
-			sig = mirrored(sig)
-		case "nonce-changed":
-			tx.Nonce++
-		case "hash-bit-flipped":
-			tx.Hash[5] ^= 0x40
-		case "no-signature":
-			sig = nil
-		case "wrapper-nonce-changed":
-			tx.Nonce++
-		case "wrapper-target-changed":
-			tx.Target = a.addrHex
-		case "wrapper-hash-bit-flipped":
-			tx.Hash[5] ^= 0x40
-		case "payload-s-bit-flipped-rehashed", "payload-v-parity-rehashed":
-			var vv, rr, sv *big.Int
-			for _, s := range layout(p) {
-				x := new(big.Int).SetBytes(p[s.body:s.end])
-				switch s.name {
-				case "v":
-					vv = x
-				case "r":
-					rr = x
-				case "s":
-					sv = x
-				}
-			}
-			if name == "payload-s-bit-flipped-rehashed" {
-				sv = new(big.Int).Xor(sv, big.NewInt(1<<30))
-			} else if vv.Bit(0) == 1 {
-				vv = new(big.Int).Add(vv, big.NewInt(1))
-			} else {
-				vv = new(big.Int).Sub(vv, big.NewInt(1))
-			}
-			tx = wrapEth(sp, a.addrHex, cidStr, ethWithSig(sp, vv, rr, sv))
-		case "signed-by-other-key-declares-A":
-			pb, _ := buildEth(sp, cid, b)
-			tx = wrapEth(sp, a.addrHex, cidStr, pb)
-		case "foreign-chainid-consistent":
-			pf, _ := buildEth(sp, big.NewInt(1), a)
-			tx = wrapEth(sp, a.addrHex, "1", pf)
-		case "wrapper-source-other-key":
-			tx.Source = b.addrHex
-		}
-		return forged{name, tx, sig}
-	}
-
+	g := &entryGen{a: a, b: b, cidStr: cidStr, cid: cid, uniq: 900000}
+	mkBase, forge := g.base, g.forge
 	var nHonest, nForged int64
 	for _, user := range []string{"", "user-1"} {
 		uname := "nouserid"
@@ -197,7 +109,7 @@ func (r *runner) entryPoints(keys []*key) {
 							kase{Part: "entry", Base: where, Height: hHi, Mut: "none", Expect: "accept", Tx: toJ(&tx, sig)})
 					}
 				} else {
-					uniq++ // keep the content numbering in step with the other workers
+					g.uniq++ // keep the content numbering in step with the other workers
 				}
 				// forged -> not pooled, nonce untouched
 				names := nativeForgeries
@@ -206,7 +118,7 @@ func (r *runner) entryPoints(keys []*key) {
 				}
 				for _, fname := range names {
 					if !r.mine() {
-						uniq++
+						g.uniq++
 						continue
 					}
 					f := forge(kind, fname)
@@ -241,4 +153,106 @@ func (r *runner) entryPoints(keys []*key) {
 	}
 	c.Count("entry_runWrite_honest_delivered", nHonest)
 	c.Count("entry_runWrite_forgeries_delivered", nForged)
+}
+
+type entryGen struct {
+	a, b   *key
+	cidStr string
+	cid    *big.Int
+	uniq   uint64
+}
+
+// base: honest transaction of a kind with fresh content
+func (g *entryGen) base(kind string) (types.Transaction, []byte, *ethSpec, []byte) {
+	a, b, cidStr, cid := g.a, g.b, g.cidStr, g.cid
+	g.uniq++
+	uniq := g.uniq
+	switch kind {
+	case "native-event", "native-contract", "native-type0":
+		tx := types.Transaction{Source: a.addrHex, Target: b.addrHex, Time: "2026-09-25 10:00:00", Nonce: uniq, ChainId: cidStr}
+		switch kind {
+		case "native-event":
+			tx.Type = types.TransactionTypeOperatorEvent
+			tx.ExtraData = `{"` + b.addrHex + `":{"balance":"1"}}`
+		case "native-contract":
+			tx.Type = types.TransactionTypeContract
+			tx.Data = `{"gasPrice":"1000000000","gasLimit":"100000","transferValue":"0","abiData":"0xa9059cbb"}`
+		}
+		sig := signNative(&tx, a)
+		return tx, sig, nil, nil
+	}
+	sp := &ethSpec{Nonce: uniq, Price: big.NewInt(1000000000), Gas: 100000, To: &b.addr, Value: big.NewInt(5), Data: []byte{0xa9, 0x05, 0x9c, 0xbb}}
+	p, _ := buildEth(sp, cid, a)
+	return wrapEth(sp, a.addrHex, cidStr, p), nil, sp, p
+}
+
+var nativeForgeries = []string{"data-changed-hash-kept", "data-changed-rehashed-old-signature", "signature-bit-flipped", "foreign-chainid-resigned", "signed-by-other-key", "source-other-key", "mirrored-signature", "nonce-changed", "hash-bit-flipped", "no-signature"}
+var ethForgeries = []string{"wrapper-nonce-changed", "wrapper-target-changed", "wrapper-hash-bit-flipped", "payload-s-bit-flipped-rehashed", "payload-v-parity-rehashed", "signed-by-other-key-declares-A", "foreign-chainid-consistent", "wrapper-source-other-key"}
+
+// forge: one forgery of a fresh honest base
+func (g *entryGen) forge(kind, name string) forged {
+	a, b, cidStr, cid := g.a, g.b, g.cidStr, g.cid
+	tx, sig, sp, p := g.base(kind)
+	switch name {
+	case "data-changed-hash-kept":
+		tx.ExtraData += " "
+	case "data-changed-rehashed-old-signature":
+		tx.ExtraData += " "
+		tx.Hash = refNativeHash(&tx)
+	case "signature-bit-flipped":
+		sig = append([]byte(nil), sig...)
+		sig[40] ^= 1
+	case "foreign-chainid-resigned":
+		tx.ChainId = "1"
+		sig = signNative(&tx, a)
+	case "signed-by-other-key":
+		sig = signNative(&tx, b)
+	case "source-other-key":
+		tx.Source = b.addrHex
+		sig = signNative(&tx, a)
+	case "mirrored-signature":
+		sig = mirrored(sig)
+	case "nonce-changed":
+		tx.Nonce++
+	case "hash-bit-flipped":
+		tx.Hash[5] ^= 0x40
+	case "no-signature":
+		sig = nil
+	case "wrapper-nonce-changed":
+		tx.Nonce++
+	case "wrapper-target-changed":
+		tx.Target = a.addrHex
+	case "wrapper-hash-bit-flipped":
+		tx.Hash[5] ^= 0x40
+	case "payload-s-bit-flipped-rehashed", "payload-v-parity-rehashed":
+		var vv, rr, sv *big.Int
+		for _, s := range layout(p) {
+			x := new(big.Int).SetBytes(p[s.body:s.end])
+			switch s.name {
+			case "v":
+				vv = x
+			case "r":
+				rr = x
+			case "s":
+				sv = x
+			}
+		}
+		if name == "payload-s-bit-flipped-rehashed" {
+			sv = new(big.Int).Xor(sv, big.NewInt(1<<30))
+		} else if vv.Bit(0) == 1 {
+			vv = new(big.Int).Add(vv, big.NewInt(1))
+		} else {
+			vv = new(big.Int).Sub(vv, big.NewInt(1))
+		}
+		tx = wrapEth(sp, a.addrHex, cidStr, ethWithSig(sp, vv, rr, sv))
+	case "signed-by-other-key-declares-A":
+		pb, _ := buildEth(sp, cid, b)
+		tx = wrapEth(sp, a.addrHex, cidStr, pb)
+	case "foreign-chainid-consistent":
+		pf, _ := buildEth(sp, big.NewInt(1), a)
+		tx = wrapEth(sp, a.addrHex, "1", pf)
+	case "wrapper-source-other-key":
+		tx.Source = b.addrHex
+	}
+	return forged{name, tx, sig}
 }
